@@ -35,6 +35,7 @@ type c17Case struct {
 	CallerEnv     []string `json:"caller_env"`
 	HostEnv       []string `json:"host_env"` // the host process's own (ambient) environment additions
 	Mode          string   `json:"mode"`     // capture (env-capturing RunnerFunc) | twin (real plugin via exec.Cmd)
+	Reuse         bool     `json:"reuse"`    // capture mode: a second client is built from the same *ClientConfig (a plugin restart)
 }
 
 var c17AmbientCert string
@@ -100,6 +101,7 @@ func c17Gen(t *rapid.T) any {
 		c.HostEnv = append(c.HostEnv, fmt.Sprintf("HOSTVAR_%s=%s", rapid.StringMatching(`[A-Z]{1,4}`).Draw(t, "hk"), rapid.StringMatching(`[a-z0-9 ]{0,8}`).Draw(t, "hv")))
 	}
 	c.Mode = []string{"capture", "twin"}[weighted(t, "mode", 65, 35)]
+	c.Reuse = c.Mode == "capture" && pct(t, "reuse", 35)
 	return c
 }
 
@@ -219,6 +221,32 @@ func c17Run(ci any) (out Outcome) {
 			out.violate("RunnerFunc was not called")
 			return
 		}
+		if c.Reuse {
+			// the same configuration object serves a second client (the host restarts its plugin): judge
+			// the first launch now, then let the second launch's environment go through the checks below
+			firstEff, firstStdin, firstDir := eff, stdinOK, sockDirArg
+			eff, sr = nil, nil
+			cl2 := plugin.NewClient(cc)
+			within(20*time.Second, func() { cl2.Start() })
+			if sr != nil {
+				sr.Kill(nil)
+			}
+			killBounded(cl2, 20*time.Second)
+			if eff == nil {
+				out.violate("RunnerFunc was not called for the second client built from the same configuration")
+				return
+			}
+			out.label("config-reused")
+			secondEff, secondStdin, secondDir := eff, stdinOK, sockDirArg
+			if v := c17Judge(c, caseDir, firstEff, firstDir, firstStdin); v != "" {
+				out.violate("%s", v)
+				return
+			}
+			if v := c17Judge(c, caseDir, secondEff, secondDir, secondStdin); v != "" {
+				out.violate("second launch from the same ClientConfig: %s", v)
+			}
+			return
+		}
 	case "twin":
 		// a real plugin launched with exec.Cmd; it reports the environment it actually got and must
 		// negotiate exactly the mode this client asked for
@@ -262,78 +290,72 @@ func c17Run(ci any) (out Outcome) {
 		}
 	}
 
+	if v := c17Judge(c, caseDir, eff, sockDirArg, stdinOK); v != "" {
+		out.violate("%s", v)
+	}
+	return
+}
+
+// c17Judge compares the effective environment of one launch with the configuration.
+func c17Judge(c *c17Case, caseDir string, eff map[string]string, sockDirArg string, stdinOK bool) string {
 	// --- the effective environment against the configuration
 	if eff[defaultCookieKey] != defaultCookieValue {
-		out.violate("magic cookie in the plugin's environment is %q, the client's is %q", eff[defaultCookieKey], defaultCookieValue)
-		return
+		return fmt.Sprintf("magic cookie in the plugin's environment is %q, the client's is %q", eff[defaultCookieKey], defaultCookieValue)
 	}
 	var got []int
 	for _, s := range strings.Split(eff["PLUGIN_PROTOCOL_VERSIONS"], ",") {
 		v, err := strconv.Atoi(s)
 		if err != nil {
-			out.violate("PLUGIN_PROTOCOL_VERSIONS=%q is not a list of integers", eff["PLUGIN_PROTOCOL_VERSIONS"])
-			return
+			return fmt.Sprintf("PLUGIN_PROTOCOL_VERSIONS=%q is not a list of integers", eff["PLUGIN_PROTOCOL_VERSIONS"])
 		}
 		got = append(got, v)
 	}
 	sort.Ints(got)
 	if fmt.Sprint(got) != fmt.Sprint(c.offered()) {
-		out.violate("PLUGIN_PROTOCOL_VERSIONS=%v, the client offers %v", got, c.offered())
-		return
+		return fmt.Sprintf("PLUGIN_PROTOCOL_VERSIONS=%v, the client offers %v", got, c.offered())
 	}
 	wantMin, wantMax := c.MinPort, c.MaxPort
 	if wantMin == 0 && wantMax == 0 {
 		wantMin, wantMax = 10000, 25000
 	}
 	if eff["PLUGIN_MIN_PORT"] != fmt.Sprint(wantMin) || eff["PLUGIN_MAX_PORT"] != fmt.Sprint(wantMax) {
-		out.violate("port range %s-%s, configured %d-%d", eff["PLUGIN_MIN_PORT"], eff["PLUGIN_MAX_PORT"], wantMin, wantMax)
-		return
+		return fmt.Sprintf("port range %s-%s, configured %d-%d", eff["PLUGIN_MIN_PORT"], eff["PLUGIN_MAX_PORT"], wantMin, wantMax)
 	}
 	cert := eff["PLUGIN_CLIENT_CERT"]
 	if c.AutoMTLS {
 		blk, _ := pem.Decode([]byte(cert))
 		if blk == nil {
-			out.violate("AutoMTLS is on but PLUGIN_CLIENT_CERT is %q", clip([]byte(cert)))
-			return
+			return fmt.Sprintf("AutoMTLS is on but PLUGIN_CLIENT_CERT is %q", clip([]byte(cert)))
 		}
 		if _, err := x509.ParseCertificate(blk.Bytes); err != nil {
-			out.violate("AutoMTLS is on but PLUGIN_CLIENT_CERT does not parse: %v", err)
-			return
+			return fmt.Sprintf("AutoMTLS is on but PLUGIN_CLIENT_CERT does not parse: %v", err)
 		}
 		if amb := os.Getenv("PLUGIN_CLIENT_CERT"); amb != "" && cert == amb {
-			out.violate("PLUGIN_CLIENT_CERT is the host's own ambient certificate, not this client's")
-			return
+			return fmt.Sprintf("PLUGIN_CLIENT_CERT is the host's own ambient certificate, not this client's")
 		}
 	} else if cert != "" {
-		out.violate("AutoMTLS is off but the plugin receives PLUGIN_CLIENT_CERT (%d bytes; host environment %v)", len(cert), envKeys(c.HostEnv))
-		return
+		return fmt.Sprintf("AutoMTLS is off but the plugin receives PLUGIN_CLIENT_CERT (%d bytes; host environment %v)", len(cert), envKeys(c.HostEnv))
 	}
 	muxVal := eff["PLUGIN_MULTIPLEX_GRPC"]
 	if c.Mux {
 		if b, err := strconv.ParseBool(muxVal); err != nil || !b {
-			out.violate("multiplexing requested but PLUGIN_MULTIPLEX_GRPC=%q", muxVal)
-			return
+			return fmt.Sprintf("multiplexing requested but PLUGIN_MULTIPLEX_GRPC=%q", muxVal)
 		}
 	} else if muxVal != "" {
-		out.violate("multiplexing not requested but the plugin receives PLUGIN_MULTIPLEX_GRPC=%q (host environment %v)", muxVal, envKeys(c.HostEnv))
-		return
+		return fmt.Sprintf("multiplexing not requested but the plugin receives PLUGIN_MULTIPLEX_GRPC=%q (host environment %v)", muxVal, envKeys(c.HostEnv))
 	}
 	if c.Group && eff["PLUGIN_UNIX_SOCKET_GROUP"] != strconv.Itoa(os.Getgid()) {
-		out.violate("socket group configured but PLUGIN_UNIX_SOCKET_GROUP=%q", eff["PLUGIN_UNIX_SOCKET_GROUP"])
-		return
+		return fmt.Sprintf("socket group configured but PLUGIN_UNIX_SOCKET_GROUP=%q", eff["PLUGIN_UNIX_SOCKET_GROUP"])
 	}
 	if c.Mode == "capture" {
 		if eff["PLUGIN_UNIX_SOCKET_DIR"] == "" || eff["PLUGIN_UNIX_SOCKET_DIR"] != sockDirArg {
-			out.violate("PLUGIN_UNIX_SOCKET_DIR=%q, runner was given %q", eff["PLUGIN_UNIX_SOCKET_DIR"], sockDirArg)
-			return
+			return fmt.Sprintf("PLUGIN_UNIX_SOCKET_DIR=%q, runner was given %q", eff["PLUGIN_UNIX_SOCKET_DIR"], sockDirArg)
 		}
 		if c.TempDir && filepath.Dir(sockDirArg) != caseDir {
-			out.violate("socket directory %q is not inside the configured TempDir %q", sockDirArg, caseDir)
-			return
+			return fmt.Sprintf("socket directory %q is not inside the configured TempDir %q", sockDirArg, caseDir)
 		}
 		if !stdinOK {
-			out.violate("the command's Stdin is not the host's stdin")
-			return
+			return fmt.Sprintf("the command's Stdin is not the host's stdin")
 		}
 	}
 	// host variables
@@ -344,24 +366,21 @@ func c17Run(ci any) (out Outcome) {
 		}
 		gv, present := eff[k]
 		if c.SkipHostEnv && present {
-			out.violate("SkipHostEnv is set but host variable %s=%q reached the plugin", k, gv)
-			return
+			return fmt.Sprintf("SkipHostEnv is set but host variable %s=%q reached the plugin", k, gv)
 		}
 		if !c.SkipHostEnv && (!present || gv != v) {
-			out.violate("host variable %s=%q did not reach the plugin (got %q, present=%v)", k, v, gv, present)
-			return
+			return fmt.Sprintf("host variable %s=%q did not reach the plugin (got %q, present=%v)", k, v, gv, present)
 		}
 	}
 	if c.Mode == "twin" {
 		for _, e := range c.CallerEnv {
 			i := strings.IndexByte(e, '=')
 			if eff[e[:i]] != effectiveEnv(c.CallerEnv)[e[:i]] {
-				out.violate("caller-supplied variable %s did not reach the plugin", e[:i])
-				return
+				return fmt.Sprintf("caller-supplied variable %s did not reach the plugin", e[:i])
 			}
 		}
 	}
-	return
+	return ""
 }
 
 func envKeys(env []string) []string {
